@@ -86,7 +86,12 @@ impl Report {
         self.out.failures.push(Failure { key, case, detail: format!("worker {:?} while running this unit alone (confirmed twice)", kind), payload: j.payload.clone(), unit: u });
         self.out.evaluations += 1;
       }
-      Event::Flaky(j, u, kind) => { self.flaky += 1; self.machinery.push(format!("flaky crash {:?} at payload={} unit={} (did not reproduce alone)", kind, j.payload, u)); }
+      // a unit that ran out of its wall budget next to 15 busy siblings and then completed alone, within three times the budget, was slow, not hung:
+      // its results (from the run alone) are used and the retry is recorded. A worker that died and did not die again alone stays a machinery error.
+      Event::Flaky(j, u, kind) => match kind {
+        CrashKind::Hang | CrashKind::HangOn(_) => { *self.out.counters.entry("units_retried_alone_after_exceeding_the_budget".into()).or_insert(0) += 1; let _ = (j, u); }
+        _ => { self.flaky += 1; self.machinery.push(format!("flaky crash {:?} at payload={} unit={} (did not reproduce alone)", kind, j.payload, u)); }
+      },
       Event::Machinery(m) => self.machinery.push(m),
     }
   }
